@@ -122,6 +122,7 @@ def run(ck, F, E):
     ev, store = common.edit_path_rules(ck, F, E, P)
     line_number_parser(ck, F)
     line_number_prefix(ck, F)
+    stored_tokens_untouched(ck, F)
     # the offset parse_line_number returns is skipped in the very string it was computed on (shared with C05/C13)
     from props import C13
     C13.same_text_rule(ck, F, "C04", only=("evaluate_impl",))
@@ -214,6 +215,24 @@ def line_number_parser(ck, F):
     ok = any(c.callee.endswith("<impl str>::parse") and c.gargs and c.gargs[0] == "u64" for c in b.calls())
     ck.require(ok, "C04:PARSE:u64", "line-number prefix", "the digit run is converted with str::parse::<u64>",
                "parse_line_number no longer converts with parse::<u64>", b.span, nontrivial=False)
+
+
+def stored_tokens_untouched(ck, F):
+    """"the last successfully tokenized non-empty text entered for that number": what is stored is what the tokenizer produced.
+    Between `remaining_tokens()` and the store, the edit path does not edit the token vector -- stripping trailing colons, for
+    instance, turns the spacer line `20 :` into an empty vector, which the store treats as a deletion of line 20."""
+    ev = get_fn(ck, F, "Interpreter::evaluate_impl")
+    if ev is None:
+        return
+    MUT = ("pop", "push", "retain", "truncate", "remove", "drain", "clear", "insert", "dedup", "swap_remove", "sort", "sort_by",
+           "reverse", "split_off", "retain_mut", "dedup_by", "dedup_by_key", "extend", "append", "resize")
+    edits = sorted({c.callee.split("::")[-1] for c in ev.calls()
+                    if c.callee.split("::")[-1] in MUT and "alloc::vec::Vec" in c.callee and
+                    "tokenizer::Token" in " ".join(c.gargs) + str((c.args[0].get("place") or {}).get("ty", "")) + show(ev.expr(c.args[0]))})
+    ck.require(not edits, "C04:EDITPATH:tokens-stored-as-tokenized", "edit path",
+               "evaluate_impl does not edit the token vector between tokenizing and storing",
+               "evaluate_impl edits the token vector before it is stored (%s): a line whose text tokenizes fine can be stored as something "
+               "else, or -- when nothing is left -- silently delete the line" % ", ".join(edits), ev.span)
 
 
 def line_number_prefix(ck, F):
@@ -389,6 +408,13 @@ def list_complete(ck, F):
             why = "it neither loops over the lines nor collects an iterator over them"
         if why is None and names & set(DROPS):
             why = "it applies %s to the sequence of lines" % ",".join(sorted(names & set(DROPS)))
+        if why is None and fn.endswith("list_tokens"):
+            # the whole sorted set, not a sub-range of it (a half-open default range that ends at u64::MAX never shows that line)
+            sub = sorted({c.callee.split("::")[-1] for x in with_closures(F, b) for c in x.calls()
+                          if c.args and "sorted_line_numbers" in show(x.expr(c.args[0])) and
+                          c.callee.split("::")[-1] in ("range", "split_off", "first", "last", "get", "take", "difference", "intersection")})
+            if sub:
+                why = "it walks only part of the sorted line set (%s)" % ",".join(sub)
         ck.require(why is None, "C04:LIST:one-entry-per-line:%s" % fn.split("::")[-1], "listing shape",
                    "%s emits exactly one entry per stored line" % fn.split("::")[-1],
                    "%s does not emit one entry per stored line (%s): LIST no longer shows exactly the stored program" % (fn, why), b.span)
